@@ -62,7 +62,7 @@ def execute(tier, gens, bins, impl):
         tasks.append(([bins[impl], "random", str(w), str(RANDOM[tier]), str(vlib.seed())], tp))
         outs.append(tp)
     res = vlib.run_parallel(tasks, par=8)
-    unsupported = sorted({l for _, err in res for l in err.splitlines() if l.startswith("UNSUPPORTED")})
+    unsupported = sorted({l for _, err in res for l in err.splitlines() if l.startswith(("UNSUPPORTED", "CRASH"))})
     return outs, unsupported
 
 
@@ -78,7 +78,10 @@ def pipeline(tier, rep, calibrate=True):
     rep.add_tv("CLib", tv, nvec + 2 * RANDOM[tier])
     for p in traces:    # every deviation carries its event; the traces themselves are not needed any more
         os.remove(p)
-    rep.cov["modules"]["CLib"].update({"not_drivable": unsupported, "random_pairs_per_family": RANDOM[tier]})
+    rep.cov["modules"]["CLib"].update({"not_drivable": [l for l in unsupported if l.startswith("UNSUPPORTED")],
+                                       "random_pairs_per_family": RANDOM[tier]})
+    if any(l.startswith("CRASH") for l in unsupported):
+        rep.notes.append({"calls_that_do_not_return": [l for l in unsupported if l.startswith("CRASH")]})
     if calibrate:
         ctr, _ = execute(tier, gens, bins, "std")
         ctv = vlib.tv_parallel("CLibTrace.tla", "CLibTrace.cfg", ctr, "clib_tv_std_" + tier, par=par, heap="1500m")
